@@ -1,13 +1,79 @@
-(* C18 -- placeholder until Proofs/OverlapResult.v lands *)
-From Tola Require Import Py.Base Model.Fragment Model.Lookup Model.OverlapResult Model.OvrSpec.
+(* C18 -- Overlap results keep span and content consistent under every edit
+   sequence.  Only statements, each closed by [exact] of a lemma from
+   Proofs/OverlapResult.v. *)
+From Tola Require Import Py.Base Model.Fragment Model.Lookup Model.OverlapResult Model.OvrSpec
+  Proofs.OverlapResult.
+Import Proofs.OverlapResult.Example.
 
-Lemma C18_discard_start_agrees_example :
-  let r := mkOvr (mkFrag 0 (s "b") 4 9 1 []) 1 9
-             [RF (mkFrag 1 (s "c") 1 3 1 []); RG (mkGap 2 (s "scaffold")); RF (mkFrag 2 (s "d") 1 4 1 [])]
-             [] None None 0 None [] in
-  match discard_start r with
-  | Ok r' => overhang_if_start_removed r = Ok (start_overhang r')
-  | Err _ => False
-  end.
-Proof. vm_compute. reflexivity. Qed.
-Print Assumptions C18_discard_start_agrees_example.
+(* Every result the lookup returns satisfies the invariant [Inv]: its rows are
+   a contiguous run src[i .. i+n) of the source scaffold in which only the
+   first / last fragment may be a shortened copy (same name and strand, the
+   scaffold-inner end kept), and start / end are the scaffold coordinates of
+   what is left. *)
+Theorem C18_init : forall src bait bs be fo,
+  pos_rows src -> lookup_spec src bs be (Some fo) -> Inv src (ovr_of_found bait fo).
+Proof. exact Inv_init. Qed.
+Print Assumptions C18_init.
+
+(* ... and every finite sequence of operations the methods accept preserves it
+   (no bound on the length of the sequence or the size of the scaffold). *)
+Theorem C18_invariant_all_sequences : forall src bait bs be fo ops r,
+  pos_rows src -> ids_distinct src ->
+  lookup_spec src bs be (Some fo) ->
+  foldM apply_op ops (ovr_of_found bait fo) = Ok r ->
+  Inv src r.
+Proof. exact C18_invariant. Qed.
+Print Assumptions C18_invariant_all_sequences.
+
+(* what the invariant means for the observable attributes: end - start + 1 =
+   total row length, first and last rows are fragments (no terminal gap),
+   every row at least 1 bp *)
+Theorem C18_consistent : forall src r, pos_rows src -> Inv src r -> consistent r.
+Proof. exact Inv_consistent. Qed.
+Print Assumptions C18_consistent.
+
+(* the "what if" overhangs equal the overhang after actually discarding *)
+Theorem C18_if_start_removed : forall r r',
+  discard_start r = Ok r' -> overhang_if_start_removed r = Ok (start_overhang r').
+Proof. exact overhang_if_start_removed_agrees. Qed.
+Print Assumptions C18_if_start_removed.
+
+Theorem C18_if_end_removed : forall r r',
+  discard_end r = Ok r' -> overhang_if_end_removed r = Ok (end_overhang r').
+Proof. exact overhang_if_end_removed_agrees. Qed.
+Print Assumptions C18_if_end_removed.
+
+(* bait overlaps are the plain interval arithmetic between bait and first /
+   last row (start_overhang and end_overhang are so by definition) *)
+Theorem C18_start_row_bait_overlap : forall r x v,
+  first_row r = Ok x -> start_row_bait_overlap r = Ok v ->
+  v = Z.max 0 (Z.min (f_end (o_bait r)) (o_start r + row_len x - 1)
+               - Z.max (f_start (o_bait r)) (o_start r) + 1).
+Proof. exact start_row_bait_overlap_spec. Qed.
+Print Assumptions C18_start_row_bait_overlap.
+
+Theorem C18_end_row_bait_overlap : forall r x v,
+  last_row r = Ok x -> end_row_bait_overlap r = Ok v ->
+  v = Z.max 0 (Z.min (f_end (o_bait r)) (o_end r)
+               - Z.max (f_start (o_bait r)) (o_end r - row_len x + 1) + 1).
+Proof. exact end_row_bait_overlap_spec. Qed.
+Print Assumptions C18_end_row_bait_overlap.
+
+(* an emptied result stays empty under every accepted operation *)
+Theorem C18_empty_stays_empty : forall r o r',
+  o_rows r = [] -> apply_op r o = Ok r' -> o_rows r' = [].
+Proof. exact empty_stays_empty. Qed.
+Print Assumptions C18_empty_stays_empty.
+
+(* non-vacuity: a concrete 5-row source, lookup and 3-op sequence meeting all
+   hypotheses with a non-empty result (Proofs/OverlapResult.v: C18_nonvacuous) *)
+Theorem C18_hypotheses_satisfiable : exists src bait fo ops r,
+  pos_rows src /\ ids_distinct src /\ length src = 5%nat
+  /\ find_overlaps src (f_start bait) (f_end bait) = Ok (Some fo)
+  /\ lookup_spec src (f_start bait) (f_end bait) (Some fo)
+  /\ ops = [TrimFrag false false false; DiscardEnd; TrimLarge 2]
+  /\ foldM apply_op ops (ovr_of_found bait fo) = Ok r
+  /\ o_rows r = [RF a'; RG g10; RF b] /\ o_start r = 95 /\ o_end r = 160
+  /\ Inv src r.
+Proof. exact C18_nonvacuous. Qed.
+Print Assumptions C18_hypotheses_satisfiable.
